@@ -250,7 +250,8 @@ Fixpoint first_round_fail (f : round -> option string) (rs : list round) (i : na
 Definition check_with (f : ccfg -> round -> option string) proj wr (c : ccase) : verdict :=
   match first_round_fail (f (c_cfg c)) (c_rounds c) 0 with
   | Some w => PROPFAIL w
-  | None => corr_check proj wr c
+  | None => if ssa (c_cfg c) then OK   (* the server-side-apply memo is process state outside the model *)
+            else corr_check proj wr c
   end.
 
 Definition with_parent (f : json -> option string) (r : round) : option string :=
@@ -273,6 +274,28 @@ Definition observed_of (c : ccfg) (r : round) (sent : json) : umap :=
           (uinit (ch_api_version kc) (ch_kind kc) m)) (kids c) []
   end.
 
+(* an ownership edit lands on the object that was observed: if the cached object of that name has another
+   UID than the object the accepted write changed, a new incarnation was adopted / released unseen *)
+Definition C04_incarnation (c : ccfg) (k : cache) (parent : json) (evs : list ev) : option string :=
+  let puid := get_uid parent in
+  first_some (fun e =>
+    match is_api e with
+    | Some q =>
+        match child_res_of c q with
+        | Some _ =>
+            if verb_eqb (q_verb q) VUpdate && accepted e &&
+               negb (Bool.eqb (controlled_by (e_pre e) puid) (controlled_by (e_post e) puid)) then
+              match find_cached c k q with
+              | Some o => if String.eqb (get_uid o) (get_uid (e_pre e)) then None
+                          else Some "ownership-edit-hit-another-incarnation"
+              | None => None
+              end
+            else None
+        | None => None
+        end
+    | None => None
+    end) evs.
+
 (* every delete of a ControllerRevision is conditioned on the UID of the revision that was observed
    (the lister's), so a same-named object created later is never deleted *)
 Definition C02_revision_delete (r : round) : option string :=
@@ -291,7 +314,11 @@ Definition C02_revision_delete (r : round) : option string :=
     end) (r_events r).
 
 Definition C02_check (c : ccase) : verdict :=
-  match first_round_fail (fun r => orelse (C02_round (c_cfg c) (r_cache r) (r_events r)) (C02_revision_delete r)) (c_rounds c) 0 with
+  match first_round_fail (fun r => orelse (C02_round (c_cfg c) (r_cache r) (r_events r))
+                                    (orelse (C02_revision_delete r)
+                                            (match k_parent (r_cache r) with
+                                             | Some p => C04_incarnation (c_cfg c) (r_cache r) p (r_events r)
+                                             | None => None end))) (c_rounds c) 0 with
   | Some w => PROPFAIL w
   | None => if ssa (c_cfg c) then OK   (* the server-side-apply memo is process state outside the model *)
             else corr_check proj_writes false c
@@ -322,8 +349,31 @@ Definition C04_revision_adoption (c : ccfg) (parent : json) (evs : list ev) : op
     | None => None
     end) [] evs.
 
+(* completeness of release: when the sync gets as far as the hook, every cached child the parent controls
+   that no longer matches the parent's selector has had its release attempted (a live parent only) *)
+Definition C04_release_complete (c : ccfg) (k : cache) (parent : json) (evs : list ev) : option string :=
+  match hook_events evs, make_selector c parent with
+  | _ :: _, Some sel =>
+      if is_deleting parent then None else
+      let puid := get_uid parent in
+      first_some (fun kc =>
+        first_some (fun o =>
+          if controlled_by o puid && negb (sel_matches sel (get_labels o)) then
+            let ns := eff_ns (ch_namespaced kc) (get_ns o) in
+            if existsb (fun e => match is_api e with
+                                 | Some q => String.eqb (q_res q) (ch_res kc) && String.eqb (q_ns q) ns &&
+                                             String.eqb (q_name q) (get_name o)
+                                 | None => false end) (before_hook evs)
+            then None else Some "owned-child-that-stopped-matching-not-released"
+          else None) (cached k (ch_res kc))) (kids c)
+  | _, _ => None
+  end.
+
 Definition C04_check := check_with (fun c r =>
-  orelse (with_parent (fun p => orelse (C04_round c (r_cache r) p (r_events r)) (C04_revision_adoption c p (r_events r))) r)
+  orelse (with_parent (fun p => orelse (C04_round c (r_cache r) p (r_events r))
+                                  (orelse (C04_revision_adoption c p (r_events r))
+                                     (orelse (C04_incarnation c (r_cache r) p (r_events r))
+                                             (C04_release_complete c (r_cache r) p (r_events r))))) r)
          (C04_label_invariant c (r_events r))) proj_claims false.
 
 (* the desired children of the round as child management receives them
@@ -712,7 +762,8 @@ Definition C09_child_follows_its_revision (c : ccfg) (r : round) : option string
                 let g := group_of (ch_api_version kc) in
                 if negb (is_rolling c g (ch_kind kc)) then None else
                 if negb (accepted e) then None else
-                let key := (g, ch_kind kc, relative_name pns (e_pre e)) in
+                let subject := if is_null (e_pre e) then q_body q else e_pre e in
+                let key := (g, ch_kind kc, relative_name pns subject) in
                 match find (fun x => ck_mem key (names_of c x)) after with
                 | None => None
                 | Some x =>
@@ -725,6 +776,16 @@ Definition C09_child_follows_its_revision (c : ccfg) (r : round) : option string
                             match find_desired (relative_desired pns (hr_children (label_resp c sent hr))) g (ch_kind kc) (relative_name pns (e_pre e)) with
                             | Some d => if containsb (JObj (aremove "status" (obj_map d))) (JObj (aremove "status" (obj_map (q_body q)))) then None
                                         else Some "child-updated-ahead-of-its-recorded-revision"
+                            | None => None
+                            end
+                        end
+                    | VCreate =>
+                        match answer_for c sent x (r_events r) with
+                        | None => Some "child-created-without-an-answer-of-its-recorded-revision"
+                        | Some hr =>
+                            match find_desired (relative_desired pns (hr_children (label_resp c sent hr))) g (ch_kind kc) (relative_name pns (q_body q)) with
+                            | Some d => if containsb (JObj (aremove "status" (obj_map d))) (JObj (aremove "status" (obj_map (q_body q)))) then None
+                                        else Some "child-created-ahead-of-its-recorded-revision"
                             | None => None
                             end
                         end
